@@ -6,7 +6,7 @@ Transcribed (snapshot ef0888e + the `fix:` commit recorded in findings/C02.txt):
   default "no entry"; inner map = association list without a meaningful order: Go iterates it in random order),
   `taskToForkKeys` ↦ `TM.forkKeysOf`, `tasks` ↦ `TM.tasks`.
 * `Task.Measurements()` = the `Measurement` of EVERY from-node (possibly "", duplicates kept); `forkKeys` = dbrps × measurements.
-* `StartTask`: refuses a task without dbrps; `newFork` makes ONE edge and registers it under every key (appending the key to
+* `StartTask`: refuses a task without dbrps and (since the third fix) an id that is already executing; `newFork` makes ONE edge and registers it under every key (appending the key to
   `taskToForkKeys[id]`, overwriting `forks[key][id]`); the edge becomes the input of the task's stream node (`et.start(ins)`),
   which is what `Edge.task` records; `tm.tasks[id] = et`.
 * `StartTask` can still fail after `newFork` (`TaskStore.LoadSnapshot` error): op `startfail`; the repaired code removes the fork again
@@ -122,9 +122,18 @@ def newFork (s : TM) (d : TaskDef) : TM × Edge :=
   let st := registerKeys d.id e d.keys (s.forks, s.forkKeysOf)
   ({ s with nextEdge := s.nextEdge + 1, forks := st.1, forkKeysOf := st.2 }, e)
 
-/-- `StartTask`. -/
+/-- `StartTask` as it was at the snapshot: no look at `tm.tasks` — starting an id that is executing overwrote `tm.tasks[id]` and
+the entries of the NEW keys, leaving the old edge registered under the old keys (kept for the counterexample theorem). -/
+def startTaskOld (s : TM) (d : TaskDef) : TM :=
+  if d.dbrps.isEmpty then s                 -- "task does contain any dbrps"
+  else
+    let (s', e) := newFork s d
+    { s' with tasks := upd s'.tasks d.id (some e) }
+
+/-- `StartTask` (since the third `fix:` commit it refuses an id that is already executing). -/
 def startTask (s : TM) (d : TaskDef) : TM :=
   if d.dbrps.isEmpty then s                 -- "task does contain any dbrps"
+  else if (s.tasks d.id).isSome then s      -- "task is already executing"
   else
     let (s', e) := newFork s d
     { s' with tasks := upd s'.tasks d.id (some e) }
@@ -145,7 +154,7 @@ def delFork (s : TM) (id : String) : TM :=
 /-- `StartTask` when `TaskStore.LoadSnapshot` fails: that happens AFTER `newFork`; since the second `fix:` commit the fork is removed
 again before the error is returned. -/
 def startTaskFail (s : TM) (d : TaskDef) : TM :=
-  if d.dbrps.isEmpty then s else delFork (newFork s d).1 d.id
+  if d.dbrps.isEmpty then s else if (s.tasks d.id).isSome then s else delFork (newFork s d).1 d.id
 
 /-- … as it was at the snapshot: the error return left the edge registered (nobody ever reads it). -/
 def startTaskFailOld (s : TM) (d : TaskDef) : TM :=
